@@ -4734,11 +4734,11 @@ func (p *Parser) parseDataType() *ast.DataType {
 				if !p.isDataTypeName(p.current.Value) && !p.peekIs(token.EQ) && !p.peekIs(token.COMMA) && !p.peekIs(token.RPAREN) {
 					// Current is a name (not a type), next should be a type
 					isNamedParam = true
-				} else if !p.peekIs(token.EQ) && (p.peekIs(token.IDENT) || p.peekIs(token.LPAREN)) {
+				} else if !p.peekIs(token.EQ) && (p.peekIs(token.IDENT) || p.peek.Token.IsKeyword() || p.peekIs(token.LPAREN)) {
 					// Current looks like a type name but is followed by another identifier
 					// This happens with things like "a Tuple(...)" where "a" looks like it could be a type
 					// Check if peek is a known type name
-					if p.peekIs(token.IDENT) && p.isDataTypeName(p.peek.Value) {
+					if (p.peekIs(token.IDENT) || p.peek.Token.IsKeyword()) && p.isDataTypeName(p.peek.Value) {
 						isNamedParam = true
 					} else if p.peekIs(token.LPAREN) {
 						// Could be a function-like type or named with parenthesized type
